@@ -1,4 +1,5 @@
 """C06 — a hairline stroke follows the path: connected, within a pixel, clip-safe."""
+import math
 from .common import *
 from .geomgen import *
 
@@ -82,6 +83,20 @@ def gen_cases(rng, tier):
         else:
             ops = rand_path_ops(rng, w / 2 + rng.uniform(-w, w) * 0.4, h / 2 + rng.uniform(-h, h) * 0.4, max(w, h) * rng.uniform(0.3, 1.2), curves=rng.random() < 0.5)
         cases.append(("hair_px", [cap, int(aa), width, w, h, 1 if w <= 40 else 0] + (rand_ts(rng) if rng.random() < 0.3 else list(IDENT)) + ops))
+    # dots: contours all of whose points coincide (M p L p, M p Q p p, M p C p p p), alone or before / after another contour,
+    # with round and square caps: half a pixel of cap on both sides of the point
+    for i in range(120 if tier == "quick" else 1500):
+        w, h = rng.choice([(12, 12), (24, 17)])
+        px_, py_ = rng.uniform(2, w - 2), rng.uniform(2, h - 2)
+        if rng.random() < 0.5:
+            px_, py_ = math.floor(px_) + rng.choice([0.0, 0.25, 0.5, 0.75, 0.9]), math.floor(py_) + rng.choice([0.0, 0.25, 0.5, 0.75, 0.9])
+        a, b = f2b(px_), f2b(py_)
+        dot = [0, a, b] + [[1, a, b], [2, a, b, a, b], [3, a, b, a, b, a, b]][i % 3]
+        k = rng.random()
+        other = poly_ops([(rng.uniform(1, w - 1), rng.uniform(1, h - 1)) for _ in range(2)], close=False, grid=16.0)
+        ops = dot if k < 0.6 else (dot + other if k < 0.8 else other + dot)
+        aa = i % 2
+        cases.append(("hair_px", [rng.choice([1, 2]), aa, 0 if (not aa or rng.random() < 0.5) else rng.choice([300, 900]), w, h, 0] + list(IDENT) + ops))
     # curves entering / leaving the pixmap: all control points but the last (or the first) on one side outside
     for i in range(80 if tier == "quick" else 1200):
         w, h = rng.choice([(100, 100), (60, 40), (24, 24)])
